@@ -22,10 +22,30 @@ Sections
               same and of other row widths; the ordinary operands have ragged columns), replace and add_fields with a
               column in that form join the operation alphabet.  A failure that the same rows and program also show with
               the canonical input form keeps its signature, one that needs the form ends in ':input-form=<form>'
+  histories   every program keeps all its intermediate tables alive; after every operation not only the operands but
+              every EARLIER result of the program (the base table, the result of the 1st, 2nd ... operation) is read back
+              and must still hold the rows it had when it was made ('<op>:<kind>:ancestor-changed').  Column assignment
+              (t.col = values, on a table nobody has read and on one that was read before) is an operation of the alphabet:
+              it changes the rows of that one table and of no other
+  file-backed the tables that bnp.open(path).read() returns (FILE_SPECS: bed, bed6, bedgraph, narrowPeak, chrom.sizes,
+              fastq, pairs; the file is written from the model rows by a plain writer) x the same programs: every
+              operand of the program (base table, concatenation operands) is read from a file.  A failure that the
+              same rows and program also show with tables built in memory keeps its signature, one that needs the
+              file-backed table ends in ':file-backed'
+  re-encode   a column that is ALREADY encoded in alphabet X handed to a field declared with another alphabet Y
+              (constructor, bnp.replace, add_fields; ragged and one-letter-per-row columns): every ordered pair of the
+              public alphabet encodings and custom AlphabetEncoding objects x every largest letter present (1st, 2nd ...
+              letter of X: before / at / after the first position where X and Y differ) x 0..3 rows: either refused or
+              the table holds exactly the letters that were put in, in the declared encoding
 """
+import atexit
 import copy
+import hashlib
 import itertools
 import json
+import os
+import shutil
+import tempfile
 import traceback
 
 from .common import Collector
@@ -123,6 +143,83 @@ DATATYPES = {
 }
 # not modelled (their column type is a VCF genotype-row encoding that only accepts raw VCF text; property C-VCF)
 DATATYPES_SKIPPED = ["VCFGenotypeEntry", "PhasedVCFGenotypeEntry", "PhasedVCFHaplotypeEntry"]
+
+# ------------------------------------------------------------------------------------------------------------------
+# file-backed tables: what bnp.open(path).read() returns.  The file is written from the model rows by a plain writer
+# (one text line per row, tab separated; fastq: four lines), so the rows of a file are limited to values that the text
+# formats can hold without any convention of their own (non-empty names without white space, non-negative integers,
+# short decimal numbers); the values given to replace / column assignment later are not limited.
+FILE_POOL = {
+    "sid": POOL["sid"],
+    "str": ["ACG", "N", "T", "GGTTACGTACGTTTGACCAGTACGATCGATCGGAT", "A", "CA"],
+    "int": [5, 3, 2 ** 40 + 1, 0, 7, 12],
+    "float": [1.5, -0.25, 1024.0, 0.0, 2.5, -7.0],
+    "optint": [3, 4, 5, 0, 17, 8],
+    "strand": POOL["strand"],
+    "qual": POOL["qual"],               # replaced by _fastq_fix: as many values as the sequence has letters
+}
+
+
+def _fastq_fix(rows):
+    for i, r in enumerate(rows):
+        r[2] = [(7 * i + 11 * k) % 94 for k in range(len(r[1]))]
+    return rows
+
+
+def _fmt(v):
+    return repr(v) if isinstance(v, float) else str(v)
+
+
+def _tab_line(row):
+    return "\t".join(_fmt(v) for v in row) + "\n"
+
+
+def _fastq_entry(row):
+    return "@%s\n%s\n+\n%s\n" % (row[0], row[1], "".join(chr(33 + q) for q in row[2]))
+
+
+# name -> (class of bionumpy.datatypes the reader documents, file extension, buffer_type argument of bnp.open or None,
+#          writer of one row, fix-up of generated rows or None)
+FILE_SPECS = {
+    "bed": ("Interval", ".bed", None, _tab_line, None),
+    "bed6": ("Bed6", ".bed", "Bed6Buffer", _tab_line, None),
+    "bedgraph": ("BedGraph", ".bdg", None, _tab_line, None),
+    "narrowPeak": ("NarrowPeak", ".narrowPeak", None, _tab_line, None),
+    "sizes": ("ChromosomeSize", ".chrom.sizes", None, _tab_line, None),
+    "fastq": ("SequenceEntryWithQuality", ".fq", None, _fastq_entry, _fastq_fix),
+    "pairs": ("PairsEntry", ".pairs", None, _tab_line, None),
+}
+_SCRATCH = [None]
+_FILE = [False]             # True in the file-backed programs: see extract_col
+
+
+def scratch_dir():
+    if _SCRATCH[0] is None or not os.path.isdir(_SCRATCH[0]):
+        _SCRATCH[0] = tempfile.mkdtemp(prefix="bnpverif_c19_")
+        atexit.register(shutil.rmtree, _SCRATCH[0], ignore_errors=True)
+    return _SCRATCH[0]
+
+
+def drop_scratch():
+    if _SCRATCH[0] is not None:
+        shutil.rmtree(_SCRATCH[0], ignore_errors=True)
+        _SCRATCH[0] = None
+
+
+def read_table(source, rows):
+    """the rows written to a file of format `source` (once per distinct content) and read back with bnp.open().read()"""
+    import bionumpy as bnp
+    _, ext, buffer, writer, _ = FILE_SPECS[source]
+    text = "".join(writer(r) for r in rows)
+    path = os.path.join(scratch_dir(), source + "_" + hashlib.md5(text.encode()).hexdigest()[:16] + ext)
+    if not os.path.exists(path):
+        with open(path, "w") as f:
+            f.write(text)
+    f = bnp.open(path, buffer_type=getattr(bnp, buffer)) if buffer else bnp.open(path)
+    try:
+        return f.read()
+    finally:
+        f.close()
 
 
 class Obs(Exception):
@@ -223,8 +320,12 @@ def cls_of(sch):
     return _CLS[key]
 
 
-def value(field, idx, width=None):
-    """width: every list-of-numbers value has exactly `width` elements (rectangular columns)"""
+def value(field, idx, width=None, safe=False):
+    """width: every list-of-numbers value has exactly `width` elements (rectangular columns); safe: a value that the
+    text formats can hold (FILE_POOL)"""
+    if safe and field.kind in FILE_POOL:
+        p = FILE_POOL[field.kind]
+        return copy.deepcopy(p[idx % len(p)])
     if field.sub is not None:
         return [value(f, idx + j, width) for j, f in enumerate(field.sub.fields)]
     if width is not None and field.kind in RAGGED_NUM:
@@ -234,8 +335,12 @@ def value(field, idx, width=None):
     return copy.deepcopy(p[idx % len(p)])
 
 
-def make_rows(sch, n, offset=0, width=None):
-    return [[value(f, offset + i + j, width) for j, f in enumerate(sch.fields)] for i in range(n)]
+def make_rows(sch, n, offset=0, width=None, source=None):
+    """source: rows for a file of that format (FILE_SPECS)"""
+    rows = [[value(f, offset + i + j, width, bool(source)) for j, f in enumerate(sch.fields)] for i in range(n)]
+    if source and FILE_SPECS[source][4]:
+        rows = FILE_SPECS[source][4](rows)
+    return rows
 
 
 # ------------------------------------------------------------------------------------------------------------------
@@ -331,8 +436,8 @@ def build(sch, rows, form="auto", keywords=False, cls=None):
 # ------------------------------------------------------------------------------------------------------------------
 # library -> rows (observation channels)
 
-def _decode(codes, kind):
-    alph = ALPHABETS.get(kind)
+def _decode(codes, kind, base=False):
+    alph = None if base else ALPHABETS.get(kind)
     if alph is None:
         return "".join(chr(c) for c in codes)
     if any(c >= len(alph) for c in codes):
@@ -352,6 +457,11 @@ def extract_col(obj, field):
         if not isinstance(obj, BNPDataClass):
             raise Obs("container:nested", "nested column is %s, not a table" % type(obj).__name__)
         return extract(obj, field.sub)
+    # the file readers hand text columns over as plain (base encoded) text, whatever the declared alphabet: read as text
+    base = _FILE[0] and isinstance(obj, (EncodedArray, EncodedRaggedArray)) and obj.encoding.is_base_encoding()
+    if _FILE[0] and isinstance(obj, (list, tuple)):
+        # one class: the column of a table is still the python list / tuple that user code handed over
+        raise Obs("column-not-converted", "column %s is a python %s" % (field.name, type(obj).__name__))
     if isinstance(obj, np.ndarray):
         if _LENIENT[0] and obj.ndim == 2 and k in RAGGED_NUM and obj.dtype.kind in "iufb":
             # the programs on tables made from other input forms read an unconverted matrix as its rows (that it is not
@@ -363,7 +473,7 @@ def extract_col(obj, field):
             raise Obs("container", "column %s is an ndarray of dtype %s" % (field.name, obj.dtype))
         return obj.tolist()
     if isinstance(obj, EncodedRaggedArray):
-        rows = [_decode(r, k) for r in obj.raw().tolist()]
+        rows = [_decode(r, k, base) for r in obj.raw().tolist()]
         other = obj.tolist()
         if other != rows:
             raise Obs("tolist-disagrees", "column %s: codes decode to %r, .tolist() gives %r" % (field.name, rows, other))
@@ -371,7 +481,7 @@ def extract_col(obj, field):
     if isinstance(obj, EncodedArray):
         if obj.ndim != 1:
             raise Obs("container", "column %s is a %d-d EncodedArray" % (field.name, obj.ndim))
-        s = _decode(obj.raw().tolist(), k)
+        s = _decode(obj.raw().tolist(), k, base)
         if obj.to_string() != s:
             raise Obs("tolist-disagrees", "column %s: codes decode to %r, to_string gives %r" % (field.name, s, obj.to_string()))
         return list(s)
@@ -541,8 +651,9 @@ class FormCol:
     failure that needs the input form gets the signature '<signature>:input-form=<form>'.  (The verdict always comes
     from the list-of-rows model; the second run only names the class.)"""
 
-    def __init__(self, col, form):
+    def __init__(self, col, form, suffix=None):
         self._col, self._form, self._memo = col, form, _FORM_MEMO
+        self._suffix = suffix or ":input-form=" + form
 
     def __getattr__(self, name):
         return getattr(self._col, name)
@@ -550,6 +661,8 @@ class FormCol:
     def fail(self, signature, case, message):
         key = (signature, self._form, case["schema"]["name"], len(case["rows"]),
                json.dumps([o[0] for o in case["program"]]), case.get("final"))
+        if self._suffix == ":file-backed" and ("file-backed" in signature or "@indexablearray." in signature):
+            self._memo[key] = True
         if key not in self._memo:
             scratch = Collector(PID, "quick", 0, "classification of an input-form failure")
             _CANONICAL[0] = True
@@ -560,8 +673,10 @@ class FormCol:
             finally:
                 _CANONICAL[0] = False
             self._memo[key] = signature in scratch._fail_sigs
-        if not self._memo[key]:
-            signature += ":input-form=" + self._form
+        if self._suffix == ":file-backed" and ("file-backed" in signature or "@indexablearray." in signature):
+            pass        # classes of their own / a class of the ragged column container (npstructures), whatever table holds it
+        elif not self._memo[key]:
+            signature += self._suffix
         self._col.fail(signature, case, message)
 
     def check(self, cond, signature, case, message=""):
@@ -574,9 +689,21 @@ class Ctx:
     """one enumeration context: collector + case description for failures.  form / width: the input form in which
     the base table (and the form-operands of the program) are handed to the library, see FORM_KINDS"""
 
-    def __init__(self, col, sch, base_rows, context=False, form=None, width=None):
+    def __init__(self, col, sch, base_rows, context=False, form=None, width=None, source=None, safe=None):
+        """source: the base table and the concatenation operands are read from files of that format (FILE_SPECS);
+        safe: the format whose value pools the generated rows come from (= source, except in the re-run of a
+        file-backed case with tables built in memory)"""
         self.sch0, self.base_rows, self.context, self.form, self.width = sch, base_rows, context, form, width
+        self.source, self.safe = source, safe or source
         self.col = FormCol(col, form) if form and not isinstance(col, FormCol) else col
+        if source and not isinstance(col, FormCol):
+            self.col = FormCol(col, "file:" + source, ":file-backed")
+
+    def make(self, sch, rows, form="auto", cls=None):
+        """a table of the context's kind (file-backed / built in memory) with these rows"""
+        if self.source and sch is self.sch0:
+            return read_table(self.source, rows)
+        return build(sch, rows, form, cls=cls)
 
     def base_form(self):
         if self.form is None or (self.form in RECT_FORMS and not self.base_rows):
@@ -589,11 +716,15 @@ class Ctx:
             c["context"] = True
         if self.form:
             c["form"], c["width"] = self.form, self.width
+        if self.safe:
+            c["source"] = self.safe
         return c
 
     def descr(self, d):
         if self.form:
             d["form"] = [self.form, self.width]
+        if self.source:
+            d["source"] = self.source
         return d
 
 
@@ -683,11 +814,37 @@ def form_ops(sch, n, level, depth, form, width):
     return ops
 
 
-def table_ops(sch, n, level, depth, form=None, width=None):
+def history_ops(sch, level, source):
+    """column assignment; in the file-backed programs also replace with a container of the declared type for the first
+    and the last column (every column at the other levels): the tables that chains of replace / assignment go through"""
+    full, mini = level == "full", level == "mini"
+    first_last = [f for i, f in enumerate(sch.fields) if i in (0, len(sch.fields) - 1)]
+    ops = []
+    if source:
+        ops += [["replace", f.name, "native"] for f in (first_last if mini else sch.fields)
+                if not (f is sch.fields[-1] and not mini)]          # (the last column: in the common list)
+    if source or not mini:
+        ops += [["assign", f.name, "native"] for f in (sch.fields if full else (first_last if source else sch.fields[-1:]))]
+    if not mini:
+        ops.append(["assign", sch.fields[-1].name, "after-read"])
+    return ops
+
+
+def table_ops(sch, n, level, depth, form=None, width=None, source=None):
     """operations applicable to a table with schema sch and n rows. level: 'full' every parameter of the bounds,
     'rep' one representative per parameter class, 'mini' one per operation"""
+    if level == "hist":
+        # the operations that chains of tables go through: replace / assign of the first and the last column, one
+        # selection of each kind, one concatenation, one sort
+        first_last = [f for i, f in enumerate(sch.fields) if i in (0, len(sch.fields) - 1)]
+        ops = [["replace", f.name, "native"] for f in first_last] + [["assign", f.name, "native"] for f in first_last]
+        ops += [["assign", sch.fields[-1].name, "after-read"], ["mask", [i % 2 == 0 for i in range(n)]],
+                ["slice", 1, None, None], ["idx", [n - 1, 0] if n else [], "array"], ["concat", "right", 1]]
+        ops += [["sort", f.name] for f in sch.fields if f.kind in SORTABLE][:1]
+        return ops
     full, mini = level == "full", level == "mini"
     ops = form_ops(sch, n, level, depth, form, width) if form else []
+    ops += history_ops(sch, level, source)
     # boolean masks
     if n <= 3 and full:
         masks = [list(m) for m in itertools.product([False, True], repeat=n)]
@@ -776,7 +933,7 @@ def op_qual(op, node_n, operand_n=None):
         if op[1] == "emptyslice" or op[2] == 0:
             return ":empty-operand"
         return formq
-    if op[0] == "replace":
+    if op[0] in ("replace", "assign"):
         return ":" + str(op[2])
     if op[0] == "add":
         return (":typed" if op[3] else ":inferred") + (":" + op[4] if len(op) > 4 else "")
@@ -790,20 +947,33 @@ class Node:
     things inside it (lazy ragged views are materialised), so every operation and every observation channel gets
     a table rebuilt by re-running the program on unobserved tables, as user code would"""
 
-    def __init__(self, steps, rows, sch, path):
+    def __init__(self, steps, rows, sch, path, hist=None):
         self.steps, self.rows, self.sch, self.path = steps, rows, sch, path
+        # hist[i] = (rows, schema) of the i-th table of the program (0 = base table ... len(steps) = this one);
+        # None: that table was changed in place later (column assignment) and is the same object as its successor
+        self.hist = hist if hist is not None else [(rows, sch)]
 
 
-def fresh(ctx, node):
-    t = build(ctx.sch0, ctx.base_rows, ctx.base_form())
+def fresh(ctx, node, keep=None):
+    """keep: a list that receives every table of the program, in order (base table first)"""
+    t = ctx.make(ctx.sch0, ctx.base_rows, ctx.base_form())
     if ctx.context:
         t.set_context("header", "##some header\n")     # what the file readers attach to every chunk
+    if keep is not None:
+        keep.append(t)
     for st in node.steps:
         t = st(t, {})
+        if keep is not None:
+            keep.append(t)
     return t
 
 
-def make_step(node, op):
+def _file_backed(t):
+    from bionumpy.bnpdataclass.lazybnpdataclass import LazyBNPDataClass
+    return isinstance(t, LazyBNPDataClass)
+
+
+def make_step(node, op, ctx=None):
     """-> (step(t, info) -> table, expected rows or None for sort, new schema, extra). Library side of one operation"""
     import numpy as np
     import bionumpy as bnp
@@ -832,11 +1002,15 @@ def make_step(node, op):
             step = lambda t, info: np.concatenate([t, t[:0]])
         else:
             uform, uwidth = (op[3], op[4]) if len(op) > 3 else ("auto", None)
-            urows = make_rows(sch, op[2], 3 + len(node.path), width=uwidth)
+            safe = ctx.safe if ctx is not None and sch is ctx.sch0 else None
+            urows = make_rows(sch, op[2], 3 + len(node.path), width=uwidth, source=safe)
             want = {"right": rows + urows, "left": urows + rows, "both": urows + rows + urows}[op[1]]
 
             def step(t, info):
-                u = build(sch, urows, uform, cls=type(t))
+                if ctx is not None and ctx.source and sch is ctx.sch0 and _file_backed(t):
+                    u = read_table(ctx.source, urows)       # a file-backed table is joined with file-backed tables
+                else:
+                    u = build(sch, urows, uform, cls=type(t))
                 info["operand"] = (u, urows)
                 return np.concatenate({"right": [t, u], "left": [u, t], "both": [u, t, u]}[op[1]])
     elif name == "sort":
@@ -863,6 +1037,22 @@ def make_step(node, op):
                   for nm, (f, vals) in cols.items()}
             info["lists"] = [(v, copy.deepcopy(v)) for v in kw.values() if isinstance(v, list) and form == "list"]
             return bnp.replace(t, **kw)
+    elif name == "assign":
+        # t.col = values: changes this table in place (and no other); the values are a container of the declared type.
+        # 'after-read': the table has been converted to rows once before the assignment
+        j = sch.names().index(op[1])
+        newvals = [value(sch.fields[j], 5 + i + len(node.path)) for i in range(n)]
+        want = [list(r) for r in rows]
+        for r, v in zip(want, newvals):
+            r[j] = v
+        extra["mutates"] = True
+
+        def step(t, info):
+            arg = to_input(sch.fields[j], newvals, "native")
+            if op[2] == "after-read":
+                t.tolist()
+            setattr(t, op[1], arg)
+            return t
     elif name == "add":
         new_sch = sch.extended(op[1], op[2])
         f = new_sch.fields[-1]
@@ -905,8 +1095,9 @@ def apply_op(ctx, node, op):
     name = op[0]
     qual = op_qual(op, n)
     col.case(ctx.descr({"s": sch.name, "base": len(ctx.base_rows), "p": program, "ctx": ctx.context}), contract=name)
-    step, want, new_sch, extra = make_step(node, op)
-    ok, t = run_guarded(ctx, "prefix", case, lambda: fresh(ctx, node))
+    step, want, new_sch, extra = make_step(node, op, ctx)
+    tables = []
+    ok, t = run_guarded(ctx, "prefix", case, lambda: fresh(ctx, node, tables))
     if not ok:
         return None
     info = {}
@@ -916,6 +1107,18 @@ def apply_op(ctx, node, op):
     elif ctx.context and name == "add":
         # one class: add_fields of a table that carries a context (every chunk read from a file does)
         ok, res = run_guarded(ctx, "add:with-context", case, lambda: step(t, info), with_origin=False)
+    elif ctx.source and name == "add" and _file_backed(t):
+        # one class: add_fields of a table read from a file
+        ok, res = run_guarded(ctx, "add:file-backed", case, lambda: step(t, info), with_origin=False)
+    elif ctx.source and name == "rt_tuples" and _file_backed(t):
+        # one class: the class of a table read from a file cannot build a table from rows
+        try:
+            res = step(t, info)
+            extract(res, new_sch)
+            ok = True
+        except Exception as e:
+            col.fail("rt_tuples:file-backed:class-cannot-build-from-rows", case, "%s: %s" % (type(e).__name__, e))
+            return None
     else:
         ok, res = run_guarded(ctx, name + qual, case, lambda: step(t, info))
     if not ok:
@@ -924,9 +1127,21 @@ def apply_op(ctx, node, op):
     if not isinstance(res, BNPDataClass):
         col.fail("%s:result-not-a-table" % name, case, "result is a %s" % type(res).__name__)
         return None
-    ok, got = run_guarded(ctx, name + ":result", case, lambda: extract(res, new_sch))
+    if ctx.source and want is not None and len(want) == 0 and _file_backed(res):
+        # one class: a selection of no rows of a table read from a file
+        ok, got = run_guarded(ctx, "zero-rows:file-backed", case, lambda: extract(res, new_sch))
+    else:
+        ok, got = run_guarded(ctx, name + ":result", case, lambda: extract(res, new_sch))
     if not ok:
         return None
+    if extra.get("mutates"):
+        # the rows of the table changed in place, as the conversion to rows gives them (one class for all column kinds)
+        ok, lst = run_guarded(ctx, name + ":tolist" + qual, case, lambda: [plain_row(e, new_sch) for e in res.tolist()])
+        if not ok:
+            return None
+        if [tr(r) for r in lst] != [tr(r) for r in want]:
+            col.fail("assign:rows-not-updated" + qual, case, "columns say %r, tolist() says %r" % (got[:4], lst[:4]))
+            return None
     good = True
     if want is not None:
         good = compare(ctx, name, qual, new_sch, got, want, case)
@@ -942,17 +1157,25 @@ def apply_op(ctx, node, op):
             if any(keyf(a) > keyf(b) for a, b in zip(keys, keys[1:])):
                 col.fail("sort:%s:not-sorted" % sch.fields[j].kind, case, "key column after sort_by: %r" % (keys,))
                 good = False
-    # operands unchanged
-    operands = [(t, rows)] + ([info["operand"]] if "operand" in info else [])
+    # operands unchanged (a column assignment changes its operand: that is its result)
+    operands = ([] if extra.get("mutates") else [(t, rows)]) + ([info["operand"]] if "operand" in info else [])
     for (o, orows) in operands:
         ok2, again = run_guarded(ctx, name + ":operand", case, lambda: extract(o, sch))
         if ok2:
             compare(ctx, name, qual, sch, again, orows, case, what="operand-changed")
+    # every earlier table of the program still holds the rows it had when it was made
+    for old, h in zip(tables, node.hist[:-1]):
+        if h is not None:
+            ok2, again = run_guarded(ctx, name + ":ancestor", case, lambda: extract(old, h[1]))
+            if ok2:
+                compare(ctx, name, qual, h[1], again, h[0], case, what="ancestor-changed")
     for now, before in info.get("lists", []):
         col.check(now == before, "%s:argument-changed" % name, case, "a list passed to %s was modified" % name)
     if not good:
         return None
-    return Node(node.steps + [step], got if want is None else want, new_sch, program)
+    newrows = got if want is None else want
+    hist = (node.hist[:-1] + [None] if extra.get("mutates") else node.hist) + [(newrows, new_sch)]
+    return Node(node.steps + [step], newrows, new_sch, program, hist)
 
 
 def terminal(ctx, node, name, t=None):
@@ -1048,13 +1271,13 @@ def explore(ctx, node, depth, levels, seen):
     col = ctx.col
     last = (node.path[-1][0] + op_qual(node.path[-1], 1)) if node.path else "fresh"
     tkey = ("T", ctx.sch0.name, node.sch.name, len(node.sch.fields), last, json.dumps(node.rows)) + \
-           ((ctx.form, ctx.width) if ctx.form else ())
+           ((ctx.form, ctx.width) if ctx.form else ()) + (("file", ctx.source) if ctx.source else ())
     if depth <= 1 or tkey not in seen:
         seen.add(tkey)
         all_terminals(ctx, node)
     if depth >= len(levels) or col.out_of_time():
         return
-    for op in table_ops(node.sch, len(node.rows), levels[depth], depth, ctx.form, ctx.width):
+    for op in table_ops(node.sch, len(node.rows), levels[depth], depth, ctx.form, ctx.width, ctx.source):
         if col.out_of_time():
             return
         if len(node.rows) > 6 and op[0] == "concat":
@@ -1066,23 +1289,27 @@ def explore(ctx, node, depth, levels, seen):
                json.dumps(child.rows), child.sch.name, len(child.sch.fields), tuple(levels[depth + 1:]))
         if ctx.form:
             key += (ctx.form, ctx.width)
+        if ctx.source:
+            key += ("file", ctx.source)
         if key in seen:
             continue
         seen.add(key)
         explore(ctx, child, depth + 1, levels, seen)
 
 
-def run_programs(col, sch, ns, levels, seen=None, context=False, form=None, width=None):
+def run_programs(col, sch, ns, levels, seen=None, context=False, form=None, width=None, source=None):
     """form / width: the base table is handed to the library in that input form (rectangular forms: list columns
-    with `width` elements per row) and the operations that take a table / column in that form are added"""
+    with `width` elements per row) and the operations that take a table / column in that form are added;
+    source: the base table (and the operands of concatenation) are read from a file of that format"""
     seen = set() if seen is None else seen
     _LENIENT[0] = bool(form)
+    _FILE[0] = bool(source)
     try:
         for n in ns:
-            rows = make_rows(sch, n, width=width if form in RECT_FORMS else None)
-            ctx = Ctx(col, sch, rows, context, form, width)
+            rows = make_rows(sch, n, width=width if form in RECT_FORMS else None, source=source)
+            ctx = Ctx(col, sch, rows, context, form, width, source)
             case = ctx.case([])
-            ok, t = run_guarded(ctx, "construct", case, lambda: build(sch, rows, ctx.base_form()))
+            ok, t = run_guarded(ctx, "construct", case, lambda: ctx.make(sch, rows, ctx.base_form()))
             if not ok:
                 continue
             ok, got = run_guarded(ctx, "construct:result", case, lambda: extract(t, sch))
@@ -1093,6 +1320,7 @@ def run_programs(col, sch, ns, levels, seen=None, context=False, form=None, widt
                 return
     finally:
         _LENIENT[0] = False
+        _FILE[0] = False
 
 
 def sample_programs(col, sch, n, length, count):
@@ -1337,6 +1565,190 @@ def datatypes_case(col, case):
 
 
 # ------------------------------------------------------------------------------------------------------------------
+# re-encoding: a column that is already encoded in one alphabet handed to a field declared with another alphabet
+
+# name -> (alphabet in code order, written from the documentation of the encodings; how to get the library object)
+ENCODINGS = {
+    "DNA": "ACGT", "ACGTn": "ACGTN", "RNA": "ACUG", "AminoAcid": "ACDEFGHIKLMNPQRSTVWY*", "Bam": "=ACMGRSVTWYHKDBN",
+    "CigarOp": "MIDNSHP=X", "Strand": "+-.",
+    # objects that user code makes with AlphabetEncoding(letters)
+    "custom:ACTG": "ACTG", "custom:ACGT": "ACGT", "custom:CAGT": "CAGT", "custom:AC": "AC", "custom:ACGU": "ACGU",
+    "custom:+.-": "+.-",
+}
+FLAT_ONLY = {"Strand"}          # declared as one letter per row (rows of other lengths are not values of such a field)
+_ENC = {}
+_ENC_CLS = {}
+
+
+def encoding_of(name):
+    if name not in _ENC:
+        import bionumpy as bnp
+        import bionumpy.encodings as be
+        if name.startswith("custom:"):
+            _ENC[name] = be.AlphabetEncoding(name.split(":", 1)[1])
+        else:
+            _ENC[name] = {"DNA": lambda: bnp.DNAEncoding, "ACGTn": lambda: be.ACGTnEncoding, "RNA": lambda: bnp.RNAENcoding,
+                          "AminoAcid": lambda: bnp.AminoAcidEncoding, "Bam": lambda: be.BamEncoding,
+                          "CigarOp": lambda: be.CigarOpEncoding, "Strand": lambda: be.StrandEncoding}[name]()
+    return _ENC[name]
+
+
+def reencode_cls(dst):
+    if dst not in _ENC_CLS:
+        from bionumpy.bnpdataclass import bnpdataclass
+        base = type("Enc_" + dst.replace(":", "_").replace("+", "p").replace("-", "m").replace(".", "d"), (),
+                    {"__annotations__": {"k": int, "v": encoding_of(dst)}})
+        _ENC_CLS[dst] = bnpdataclass(base)
+    return _ENC_CLS[dst]
+
+
+def reencode_words(alphabet, m, variant, flat):
+    """rows over the first m letters of the alphabet in which the m-th letter occurs (m = 0: no letter at all).
+    flat: one letter per row"""
+    if m == 0:
+        return [[], [""], ["", ""]][variant] if not flat else []
+    top, low = alphabet[m - 1], alphabet[:m]
+    if flat:
+        return [[top], [low[0], top], [top, low[(m - 1) // 2], top]][variant]
+    return [[top], [low, "", low[0] + top], [top + top + low[0], low[::-1], low[0]]][variant]
+
+
+def reencode_case(col, case):
+    """case: src, dst (names of ENCODINGS), words, flat, op ('construct' | 'replace' | 'add')"""
+    import bionumpy as bnp
+    from bionumpy.encoded_array import EncodedArray, EncodedRaggedArray
+    src, dst, words, flat, op = case["src"], case["dst"], case["words"], case["flat"], case["op"]
+    xa, ya = ENCODINGS[src], ENCODINGS[dst]
+    col.case({"k": "reencode", "src": src, "dst": dst, "words": words, "flat": flat, "op": op}, contract="convert-or-raise")
+    n = len(words)
+    # the argument, made from the codes (position of each letter in the source alphabet) - not by the text encoder
+    import numpy as np
+    from npstructures import RaggedArray
+    codes = [[xa.index(c) for c in w] for w in words]
+    if flat:
+        arg = EncodedArray(np.array([c[0] for c in codes], dtype=np.uint8), encoding_of(src))
+    else:
+        arg = EncodedRaggedArray(EncodedArray(np.array([c for w in codes for c in w], dtype=np.uint8), encoding_of(src)),
+                                 [len(w) for w in codes])
+    cls = reencode_cls(dst)
+    keys = list(range(n))
+    base = None
+    try:
+        if op == "construct":
+            t = cls(keys, arg)
+        else:
+            filler = [ya[0]] * n if not flat else ya[0] * n
+            base = cls(keys, filler)
+            if op == "replace":
+                t = bnp.replace(base, v=arg)
+            else:
+                t = base.add_fields({"w": arg}, {"w": encoding_of(dst)})
+    except Exception:
+        t = None                    # refused: allowed
+    # the argument still holds the letters it held
+    col.check(arg.raw().tolist() == (codes if not flat else [c[0] for c in codes]) and arg.encoding == encoding_of(src),
+              "reencode:argument-changed", case, "the encoded column handed over was modified")
+    if t is None:
+        return "refused"
+
+    def read():
+        c = getattr(t, "w" if op == "add" else "v")
+        if not isinstance(c, (EncodedArray, EncodedRaggedArray)):
+            raise Obs("container", "column is a %s" % type(c).__name__)
+        labels = "".join(c.encoding.get_labels()) if hasattr(c.encoding, "get_labels") else None
+        if labels != ya:
+            raise Obs("encoding-not-declared", "the field declares the alphabet %r, the column has %r" % (ya, c.encoding))
+        raw = c.raw().tolist()
+        if n and isinstance(c, EncodedRaggedArray) == flat:
+            raise Obs("container", "column is a %s" % type(c).__name__)
+        if not n:
+            raw = []
+        if any(x >= len(ya) for x in (raw if flat else [x for r in raw for x in r])):
+            raise Obs("bad-code", "codes outside the declared alphabet: %r" % (raw,))
+        by_codes = [ya[x] for x in raw] if flat else ["".join(ya[x] for x in r) for r in raw]
+        by_rows = [getattr(e, "w" if op == "add" else "v") for e in t.tolist()]
+        return by_codes, by_rows
+    try:
+        by_codes, by_rows = read()
+    except Obs as o:
+        col.fail("reencode:accepted:%s" % o.tag, case, str(o))
+        return "built"
+    except Exception as e:
+        col.fail("reencode:accepted:exception-when-read:%s" % type(e).__name__, case, traceback.format_exc()[-500:])
+        return "built"
+    want = list(words)
+    if len(by_codes) != n or len(by_rows) != n or len(t) != n:
+        col.fail("reencode:accepted:wrong-row-count", case, "put in %r, column holds %r, rows %r" % (want, by_codes, by_rows))
+    elif by_codes != want or by_rows != want:
+        col.fail("reencode:accepted:letters-changed", case,
+                 "%s-encoded %r into a field declared %s (%s): not refused, column holds %r, rows %r"
+                 % (src, want, dst, op, by_codes, by_rows))
+    if base is not None:
+        col.check(base.v.raw().tolist() == ([0] * n if flat else [[0]] * n), "reencode:operand-changed", case,
+                  "the table that %s was applied to changed" % op)
+    return "built"
+
+
+def reencode_cases(quick):
+    names = list(ENCODINGS)
+    seen = set()
+    for src in names:
+        xa = ENCODINGS[src]
+        for dst in names:
+            ya = ENCODINGS[dst]
+            if src == dst:
+                continue
+            d = next((i for i, (a, b) in enumerate(zip(xa, ya)) if a != b), min(len(xa), len(ya)))    # first difference
+            # m letters in use, the m-th is present.  near = the largest letter present is the one before / at / behind
+            # the first position where the alphabets differ
+            ms = sorted({0, d, d + 1, d + 2, len(xa)}) if quick else range(len(xa) + 1)
+            for m in ms:
+                if m > len(xa):
+                    continue
+                near = abs(m - 1 - d) <= 1
+                if quick:
+                    plan = {d + 1: [(False, (0, 1, 2), ("construct",)), (False, (1,), ("replace", "add")), (True, (1,), ("construct",))],
+                            d: [(False, (1,), ("construct", "replace", "add")), (True, (1,), ("construct",))]}.get(
+                        m, [(False, (1,), ("construct",))])
+                elif near:
+                    plan = [(False, (0, 1, 2), ("construct", "replace", "add")), (True, (0, 1, 2), ("construct", "replace", "add"))]
+                else:
+                    plan = [(False, (1,), ("construct", "replace", "add")), (True, (1,), ("construct",))]
+                for flat, variants, ops in plan:
+                    if dst in FLAT_ONLY and not flat:
+                        flat = True                 # a field of one letter per row is given one letter per row
+                    for variant in variants:
+                        if flat and m == 0 and variant:
+                            continue
+                        words = reencode_words(xa, m, variant, flat)
+                        for op in ops:
+                            if op != "construct" and not words:
+                                continue            # (add_fields / replace on tables without rows: the programs section)
+                            key = (src, dst, tuple(words), flat, op)
+                            if key not in seen:
+                                seen.add(key)
+                                yield {"section": "reencode", "src": src, "dst": dst, "words": words, "flat": flat, "op": op}
+
+
+def run_reencode(col, quick):
+    import bionumpy  # noqa
+    for name, alphabet in ENCODINGS.items():
+        c = {"section": "reencode-table", "name": name}
+        col.case({"k": "reencode-table", "name": name}, contract="encoding-table")
+        ok = col.guarded(lambda: "".join(encoding_of(name).get_labels()) == alphabet, "reencode:alphabet-table", c)
+        if not col.check(bool(ok), "reencode:alphabet-table-differs:%s" % name, c, "the alphabet of %s is not %r" % (name, alphabet)):
+            return {}
+    outcome = {"built": 0, "refused": 0}
+    for c in reencode_cases(quick):
+        if col.out_of_time():
+            break
+        r = col.guarded(lambda: reencode_case(col, c), "reencode:crash", c)
+        if r in outcome:
+            outcome[r] += 1
+    return outcome
+
+
+# ------------------------------------------------------------------------------------------------------------------
 # driver
 
 def kind_schemas():
@@ -1393,6 +1805,21 @@ def run(tier="quick", seed=0):
              "Bed12 GfaPath wide nested-in-nested n in {1,3} rep, GfaPath n=3 w=1 rep x mini; tuple: List kinds n=1..3 rep, "
              "List[int] n=3 rep x mini; Series: every kind with the form and the wide table n in {1,3} rep, int str List[int] n=3 rep x mini"),
         "tables with a context (set_context, as attached by the file readers)": "K_str and Interval, n in {0,1,3}: rep (depth 1)",
+        "histories": "in every program above and below: after each operation every earlier table of the program is read back; "
+                     "column assignment (container of the declared type; on an unread table and on one converted to rows before) "
+                     "is an operation at the levels full (every column) and rep (last column); level hist = replace / assign of "
+                     "the first and last column, assign after a read, one mask / slice / index array / concatenation / sort",
+        "file-backed tables (bnp.open(path).read(); formats " + ", ".join(FILE_SPECS) + "; rows limited to values the text "
+        "formats hold: non-empty names, integers >= 0, short decimals; operands of concatenate are read from files too)":
+            ("bed n=3: rep; bed, bed6, fastq n=3 and bed n=1: hist x hist; bedgraph chrom.sizes narrowPeak pairs n=3: hist" if quick else
+             "bed bed6 bedgraph fastq chrom.sizes n=3: rep x mini; narrowPeak pairs n=3: rep; bed fastq n=3: hist x hist x hist; "
+             "every format n in {1,2}: hist x hist"),
+        "re-encode": "source x declared alphabet: every ordered pair of %d alphabets (%s) x largest letter present %s x "
+                     "rows (1 row; 3 rows with an empty one; 3 rows) x ragged / one letter per row x constructor, bnp.replace, "
+                     "add_fields (typed)%s" % (len(ENCODINGS), ", ".join(ENCODINGS),
+                                              "none, the letter before / at / behind the first difference, the last letter" if quick else "none .. last letter",
+                                              "; all of that where the largest letter is next to the first difference, else (quick: also "
+                                              "before / behind it) one row set, ragged with the three operations, flat with the constructor"),
         "observation": "after every operation: column containers (class invariant len(column)=len(table)), operands re-read; per node "
                        "t[i] for every i in [-n,n), iteration, tolist/toiter, todict, topandas - each on a table nobody has read before"}
     # 1 datatypes table
@@ -1432,8 +1859,10 @@ def run(tier="quick", seed=0):
                     c = {"section": "construct", "schema": sch.desc, "rows": make_rows(sch, n, width=w), "form": form,
                          "keywords": False, "width": w}
                     col.guarded(lambda: construct_case(col, c), "construct:crash", c)
+    # 2c columns that are already encoded in another alphabet
+    outcome = run_reencode(col, quick)
+    col.bounds["re-encode"] += "; accepted %s, refused %s" % (outcome.get("built"), outcome.get("refused"))
     # 3 programs
-    import os
     import time
     trace = os.environ.get("C19_TRACE")
     if trace:
@@ -1501,6 +1930,20 @@ def run(tier="quick", seed=0):
                         lambda: run_programs(col, by_name[nm], ns, levels, form=form, width=w))
     for sch in [Sch("K_str", [["k", "int"], ["v", "str"]], None, True), Sch("Interval", DATATYPES["Interval"], datatype="Interval")]:
         section(sch.name + " with context", lambda: run_programs(col, sch, [0, 1, 3], ("rep",), context=True))
+    # programs on tables read from files
+    if quick:
+        splan = [(["bed"], [3], ("rep",)), (["bed", "bed6", "fastq"], [3], ("hist", "hist")), (["bed"], [1], ("hist", "hist")),
+                 (["bedgraph", "sizes", "narrowPeak", "pairs"], [3], ("hist",))]
+    else:
+        splan = [(["bed", "bed6", "bedgraph", "fastq", "sizes"], [3], ("rep", "mini")), (["narrowPeak", "pairs"], [3], ("rep",)),
+                 (["bed", "fastq"], [3], ("hist", "hist", "hist")), (list(FILE_SPECS), [1, 2], ("hist", "hist"))]
+    try:
+        for sources, ns, levels in splan:
+            for src in sources:
+                section("%s file-backed %r %r" % (src, ns, levels),
+                        lambda: run_programs(col, by_name[FILE_SPECS[src][0]], ns, levels, source=src))
+    finally:
+        drop_scratch()
     for sch in kind_schemas() + other_schemas():
         section(sch.name + " sampled", lambda: sample_programs(col, sch, 3, 3, 15 if quick else 200))
     return col.result()
@@ -1510,11 +1953,13 @@ def run_program_case(col, case):
     """one recorded case of the programs section (replay; canonical re-run of FormCol)"""
     sch = Sch.from_desc(case["schema"])
     rows = case["rows"]
-    ctx = Ctx(col, sch, rows, case.get("context", False), None if _CANONICAL[0] else case.get("form"), case.get("width"))
-    lenient = _LENIENT[0]
+    ctx = Ctx(col, sch, rows, case.get("context", False), None if _CANONICAL[0] else case.get("form"), case.get("width"),
+              None if _CANONICAL[0] else case.get("source"), case.get("source"))
+    lenient, filed = _LENIENT[0], _FILE[0]
     _LENIENT[0] = bool(case.get("form"))
+    _FILE[0] = bool(case.get("source"))
     try:
-        ok, t = run_guarded(ctx, "construct", ctx.case([]), lambda: build(sch, rows, ctx.base_form()))
+        ok, t = run_guarded(ctx, "construct", ctx.case([]), lambda: ctx.make(sch, rows, ctx.base_form()))
         if ok:
             ok, got = run_guarded(ctx, "construct:result", ctx.case([]), lambda: extract(t, sch))
             if ok and compare(ctx, "construct", "", sch, got, rows, ctx.case([])):
@@ -1527,7 +1972,7 @@ def run_program_case(col, case):
                     for name in ([case["final"]] if case.get("final") else TERMINALS):
                         terminal(ctx, node, name)
     finally:
-        _LENIENT[0] = lenient
+        _LENIENT[0], _FILE[0] = lenient, filed
 
 
 def replay(case):
@@ -1541,8 +1986,16 @@ def replay(case):
         illtyped_case(col, case)
     elif sec == "unequal":
         unequal_case(col, case)
+    elif sec == "reencode":
+        reencode_case(col, case)
+    elif sec == "reencode-table":
+        col.check("".join(encoding_of(case["name"]).get_labels()) == ENCODINGS[case["name"]],
+                  "reencode:alphabet-table-differs:%s" % case["name"], case, "alphabet differs")
     else:
-        run_program_case(col, case)
+        try:
+            run_program_case(col, case)
+        finally:
+            drop_scratch()
     if col.failures:
         return False, "; ".join(f["signature"] + ": " + f["message"] for f in col.failures)
     return True, "ok"
